@@ -215,6 +215,19 @@ func (w *World) ruleLoopExits(r *Report, rule string, listsOnly bool) {
 					if !ok {
 						continue
 					}
+					// the terminator report handed on as a boolean by the helper that reads the element
+					if c, neg, isFlag := w.terminatorFlagOf(iff.Cond); isFlag && readSet[c] {
+						found = true
+						pos = w.instrPos(iff)
+						edge := 0
+						if neg {
+							edge = 1
+						}
+						if w.leavesLoop(b.Succs[edge], lp, map[*ssa.BasicBlock]bool{}) {
+							leaves = true
+						}
+						continue
+					}
 					bo, ok := iff.Cond.(*ssa.BinOp)
 					if !ok || (bo.Op != token.EQL && bo.Op != token.NEQ) {
 						continue
@@ -307,6 +320,10 @@ func errOperandOf(cond ssa.Value) ssa.Value {
 func (w *World) classifyExitCond(cond ssa.Value, reads map[*ssa.Call]bool, lp *loopInfo) (string, string) {
 	bo, ok := cond.(*ssa.BinOp)
 	if !ok {
+		// the terminator report of an element read, handed on as a boolean result by a helper
+		if c, _, isFlag := w.terminatorFlagOf(cond); isFlag && reads[c] {
+			return "sentinel", cond.String() + " (true only on the terminator report inside " + fnName(c.Call.StaticCallee()) + ")"
+		}
 		if phi, isPhi := cond.(*ssa.Phi); isPhi {
 			// `a || b` as a value: classify by the strongest operand
 			kinds := map[string]bool{}
